@@ -289,6 +289,90 @@ EQUAL_FAMILIES = [['1', '1.0', 'True', '1e0', '(1)'], ['0', '0.0', '-0.0', 'Fals
                   ['[]', '()', '{}'], ['None', '0', "''"]]
 
 
+class ApiEngine(ValueEngine):
+  """the single-value entry point gin.config.parse_value(text) (what _format_value uses to decide representability):
+  the same generated literals / near misses, plus literals followed by trailing junk, WITHOUT a statement around them"""
+  name = 'parse-value-api'
+  run_fn = 'run_value_api'
+
+  def budget(self, tier):
+    return 1500 if tier == 'quick' else 40000
+
+  def corpus(self):
+    return [{'kind': 'fixed', 'text': t} for t in FIXED_NEAR_MISSES] + [
+        {'kind': 'fixed', 'text': t} for t in ('1 + 2', '[1] * 3', "'a'.upper()", '1 if False else 2', '1, 2', '[1][0]', '1 2', "{'a': 1} x",
+                                               '1\n', '1 # c\n', '[1,\n 2]\n\n# c\n', '1\n2', '(1)\n+ 2', '1;', 'None or 1', '1\n\n  \n')]
+
+  def gen(self, rng, tier):
+    case = super().gen(rng, tier)
+    if rng.random() < 0.25:
+      junk = rng.choice([' + 2', ' * 3', '.x', ' if 1 else 2', ', 2', '[0]', ' 2', ' x', '\n2', ';', ' or 1', '\n# c\n', '\n\n', ' # c', '\n  \n'])
+      return {'kind': 'mutated', 'text': case['text'] + junk, 'nt': True}
+    return case
+
+  def to_coq(self, case):
+    return P.coq_input(case['text'])
+
+  def impl(self, case):
+    gin = C.cached_gin()
+    cfg = gin.config
+    text = case['text']
+    if not P.coq_safe(text):
+      text = text.replace('\x00', '0').replace('\r', ' ')
+      case['text'] = text
+    cp = gin.config_parser
+
+    class Delegate(cp.ParserDelegate):
+      def configurable_reference(self, scoped_configurable_name, evaluate):
+        return T('Ref', scoped_configurable_name, bool(evaluate))
+
+      def macro(self, macro_name):
+        return T('Macro', macro_name)
+
+    def canon(v):
+      if isinstance(v, T):
+        return v
+      if isinstance(v, list):
+        return T('L', *[canon(x) for x in v])
+      if isinstance(v, tuple):
+        return T('T', *[canon(x) for x in v])
+      if isinstance(v, dict):
+        return T('D', *[[canon(k), canon(x)] for k, x in v.items()])
+      return P.canon_lit(v)
+    real = cfg.ParserDelegate
+    cfg.ParserDelegate = lambda *a, **k: Delegate()
+    import warnings
+    warnings.simplefilter('ignore')
+    try:
+      try:
+        obs = T('Value', canon(cfg.parse_value(text)))
+      except SyntaxError as e:
+        obs = T('SyntaxError', e.lineno or 0)
+      except Exception as e:  # pylint: disable=broad-except
+        obs = T('Err', type(e).__name__)
+    finally:
+      cfg.ParserDelegate = real
+    fails, tags = [], [case['kind']]
+    ref = P.lit_eval(text)
+    if obs.tag == 'Value' and has_gin_syntax(obs.args[0]):
+      tags.append('reference-or-macro')
+    elif obs.tag == 'Value':
+      tags.append('accepted')
+      if ref is None:
+        fails.append(('accepted-non-literal', 'parse_value(%r) returned %r but Python cannot evaluate that text as a literal' %
+                      (text, C.jsonable(obs.args[0]))))
+      elif obs.args[0] != ref:
+        fails.append(('parsed-to-different-value', 'parse_value(%r) returned %r, Python evaluates the text to %r' %
+                      (text, C.jsonable(obs.args[0]), C.jsonable(ref))))
+    else:
+      tags.append('rejected')
+      if ref is not None and case['kind'] == 'grammar':
+        fails.append(('valid-literal-rejected', 'parse_value(%r) (= %r in Python) was rejected: %r' % (text, C.jsonable(ref), C.jsonable(obs))))
+      if obs.tag == 'Err' and obs.args[0] not in ('TokenError', 'TypeError'):
+        fails.append(('wrong-rejection-class', 'parse_value(%r) rejected with %s' % (text, obs.args[0])))
+    return {'obs': obs, 'fails': fails, 'nontrivial': bool(case.get('nt')), 'tags': tags}
+
+
 class StoreEngine(Engine):
   """'is stored as the value, OF THE SAME TYPE, that Python evaluates that text to': a key bound several times (in one
   text or in successive parses) to literals that compare equal but differ in type or sign of zero; what the store
@@ -346,4 +430,4 @@ class StoreEngine(Engine):
     return {'obs': obs, 'fails': fails[:2], 'nontrivial': rebinds, 'tags': ['calls%d' % len(c['calls'])]}
 
 
-ENGINES = [ValueEngine(), StoreEngine()]
+ENGINES = [ValueEngine(), ApiEngine(), StoreEngine()]
